@@ -30,6 +30,14 @@ def _order(W):
     return PolyhedralConeOrder(OrderingCone(np.array(W, dtype=float)))
 
 
+def _order_int(W):
+    """the cone matrix as a user may give it: integer dtype (as in the OrderingCone docstring)"""
+    import numpy as np
+    from vopy.order import PolyhedralConeOrder
+    from vopy.ordering_cone import OrderingCone
+    return PolyhedralConeOrder(OrderingCone(np.array(W)))
+
+
 def _replay(rows):
     import numpy as np
     bad = []
@@ -37,9 +45,8 @@ def _replay(rows):
     for r in rows:
         key = str(r["W"])
         if key not in orders:
-            orders[key] = _order(r["W"])
-        o = orders[key]
-        for scale in (1.0, 0.125):
+            orders[key] = (_order(r["W"]), _order_int(r["W"]))
+        for scale, o in ((1.0, orders[key][0]), (0.125, orders[key][0]), (0.125, orders[key][1]), (0.3, orders[key][1])):
             V = np.array(r["V"], dtype=float) * scale
             fast = [int(i) + 1 for i in o.get_pareto_set(V.copy())]
             naive = [int(i) + 1 for i in o.get_pareto_set_naive(V.copy())]
@@ -60,10 +67,15 @@ def _random_cases(args):
     for _ in range(count):
         W = CONES[names[rs.randint(len(names))]]
         n = int(rs.randint(1, nmax + 1))
+        dim = 2
+        if rs.rand() < 0.35:          # three objectives: bundled 3-D cones and a 4-facet cone (evaluator's definition works in any dimension)
+            W = [[1, -2, 4], [4, 1, -2], [-2, 4, 1]] if rs.rand() < 0.4 else [[5, 2, 8], [8, 5, 2], [2, 8, 5]] if rs.rand() < 0.5 else [[1, 0, 0], [0, 1, 0], [0, 0, 1], [1, 1, -1]]
+            dim = 3
+            n = min(n, 80)
         if rs.rand() < 0.5:
-            V = rs.randint(0, 6, size=(n, 2)).astype(float)        # many duplicates and chains
+            V = rs.randint(0, 6 if dim == 2 else 4, size=(n, dim)).astype(float)        # many duplicates and chains
         else:
-            V = np.round(rs.randn(n, 2), 3)
+            V = np.round(rs.randn(n, dim), 3)
             if n > 3:
                 V[rs.randint(n)] = V[rs.randint(n)]                 # a duplicate
         o = _order(W)
